@@ -108,10 +108,13 @@ def parseWith {α : Type} (cellFn : Cell → Option α) (rep : FixCfg → α) (v
 def parseOnoff (cells : List Cell) (f : Fixer) : List Bool × Fixer :=
   parseWith onoffCell (·.repOnoff) "onoff" cells f
 
+/-- what the harness sends as `repr(float(i))` when `float(i)` raises OverflowError -/
+def overflowTok : Str := "OverflowError".toList
+
 /-- one cell of a numeric column: `some tok` or `none` = hand it to the fixer -/
 def floatCell (ext : Ext) : Cell → Option Str
   | .float t => some t
-  | .int _ ft => some ft
+  | .int _ ft => if ft = overflowTok then none else some ft   -- float(int) overflow → fixer
   | .bool b => some (if b then "1.0".toList else "0.0".toList)
   | .str s => if Gen.missingFloatConvert.contains (normalize s) then some NaN else ext.parseFloat s
   | .none => some NaN
